@@ -75,6 +75,10 @@ type Ctx struct {
 	stages     map[string]any
 }
 
+// Explore reports whether this driver explores a part of the specification that serves no listed property
+// (ids starting with X): it reports observations, writes its evidence under explore/ and always exits 0 or 2.
+func (c *Ctx) Explore() bool { return strings.HasPrefix(c.ID, "X") }
+
 // Thorough reports whether the thorough tier is selected.
 func (c *Ctx) Thorough() bool { return c.Tier == "thorough" }
 
@@ -214,6 +218,12 @@ func (c *Ctx) Violation(key, what string, replay any, reproduce func() bool) {
 			return
 		}
 	}
+	if c.Explore() {
+		// a specification beyond the listed properties: observations, never verdicts on a property
+		c.violations[key] = ""
+		fmt.Printf("OBSERVATION spec=%s %s [%s]\n", c.ID, what, key)
+		return
+	}
 	sum := sha256.Sum256([]byte(key))
 	dir := filepath.Join(VerifRoot, "replays", c.ID)
 	_ = os.MkdirAll(dir, 0o755)
@@ -346,14 +356,20 @@ func (c *Ctx) finish() {
 	nbroken := len(c.broken)
 	c.mu.Unlock()
 	data, _ := json.MarshalIndent(ev, "", " ")
-	_ = os.MkdirAll(filepath.Join(VerifRoot, "evidence"), 0o755)
-	_ = os.WriteFile(filepath.Join(VerifRoot, "evidence", c.ID+".json"), data, 0o644)
+	evDir := "evidence"
+	if c.Explore() {
+		evDir = "explore"
+	}
+	_ = os.MkdirAll(filepath.Join(VerifRoot, evDir), 0o755)
+	_ = os.WriteFile(filepath.Join(VerifRoot, evDir, c.ID+".json"), data, 0o644)
 	if os.Getenv("VERIF_KEEP_WORK") == "" {
 		_ = os.RemoveAll(c.Work)
 	}
 	fmt.Fprintf(os.Stderr, "[%s] done in %.1fs: evals=%d distinct=%d states=%d transitions=%d traces=%d violations=%d known=%d broken=%d\n",
 		c.ID, wall, c.evals, len(c.distinct), c.states, c.transitions, c.traces, nviol, len(knownKeys), nbroken)
 	switch {
+	case nviol > 0 && c.Explore():
+		os.Exit(ExitOK)
 	case nviol > 0:
 		os.Exit(ExitViolation)
 	case nbroken > 0:
